@@ -28,6 +28,13 @@ func loadOverlay(harnessDir, repo string) map[string][]byte {
 	return ov
 }
 
+func verifDir() string {
+	if d := os.Getenv("VERIF_DIR"); d != "" {
+		return d
+	}
+	return "/verif"
+}
+
 func main() {
 	if len(os.Args) < 2 {
 		fmt.Println("usage: vcheck run|explore ...")
@@ -35,7 +42,7 @@ func main() {
 	}
 	switch os.Args[1] {
 	case "selftest":
-		w, err := sym.LoadWorld("/repo", loadOverlay("/verif/harness", "/repo"))
+		w, err := sym.LoadWorld("/repo", loadOverlay(verifDir()+"/harness", "/repo"))
 		if err != nil {
 			fmt.Println("load error:", err)
 			os.Exit(3)
@@ -71,19 +78,19 @@ func main() {
 		}
 		var seed int64
 		fmt.Sscan(os.Getenv("VERIF_SEED"), &seed)
-		cfg := &sym.CheckConfig{Property: *prop, Tier: *tier, Seed: seed, RepoDir: *repoDir, VerifDir: "/verif", Workers: *workers, OnlyH: *only, MaxSec: *maxSec, NoReplay: *noReplay, Tag: *tag}
+		cfg := &sym.CheckConfig{Property: *prop, Tier: *tier, Seed: seed, RepoDir: *repoDir, VerifDir: verifDir(), Workers: *workers, OnlyH: *only, MaxSec: *maxSec, NoReplay: *noReplay, Tag: *tag}
 		out := sym.RunCheck(cfg)
 		os.Exit(out.ExitCode)
 	case "refcheck":
 		// native validation of the reference model against the corpus
-		cfg := &sym.CheckConfig{RepoDir: "/repo", VerifDir: "/verif", Tier: "quick"}
+		cfg := &sym.CheckConfig{RepoDir: "/repo", VerifDir: verifDir(), Tier: "quick"}
 		out, err := sym.NativeTest(cfg, "^TestVerifRefjpCorpus$", 120)
 		fmt.Println(out)
 		if err != nil {
 			os.Exit(1)
 		}
 	case "replay":
-		cfg := &sym.CheckConfig{RepoDir: "/repo", VerifDir: "/verif", Tier: "quick"}
+		cfg := &sym.CheckConfig{RepoDir: "/repo", VerifDir: verifDir(), Tier: "quick"}
 		res, logs, err := sym.NativeReplay(cfg, os.Args[2:], false, 60)
 		if err != nil {
 			fmt.Println(err)
@@ -105,7 +112,7 @@ func main() {
 		workers := fs.Int("j", 16, "")
 		maxPaths := fs.Int("max", 0, "")
 		repo := fs.String("repo", "/repo", "")
-		hd := fs.String("harness", "/verif/harness", "")
+		hd := fs.String("harness", verifDir()+"/harness", "")
 		fs.Parse(os.Args[2:])
 		t0 := time.Now()
 		w, err := sym.LoadWorld(*repo, loadOverlay(*hd, *repo))
